@@ -44,8 +44,19 @@ func engRespond(seed int64, tier string, _ []string, out *sx.Out) {
 		}
 		b := broker.New(broker.Opts{Caps: caps, Auth: broker.AllowAuth, ACL: acl})
 		var c *broker.Conn
+		// every eighth session (MQTT 5): the client announces Maximum Packet Size 64 and half of its
+		// SUBSCRIBE / UNSUBSCRIBE requests carry so many filters that the SUBACK / UNSUBACK (n + 5
+		// bytes) cannot be sent: the broker has to end the connection instead of staying silent
+		mps := uint32(0)
+		if ver == 5 && s%8 == 6 {
+			mps = 64
+		}
 		connect := func() {
-			c = b.Connect("10.0.0.1:1", broker.ConnectPk("c", ver, false))
+			cp := broker.ConnectPk("c", ver, false)
+			if mps > 0 {
+				cp.Properties.MaximumPacketSize = mps
+			}
+			c = b.Connect("10.0.0.1:1", cp)
 			b.Drain()
 		}
 		connect()
@@ -70,6 +81,9 @@ func engRespond(seed int64, tier string, _ []string, out *sx.Out) {
 				pk = broker.AckPk(packets.Pubrel, uint16(1+rng.Intn(3)), rc)
 			case k < 8:
 				n := 1 + rng.Intn(3)
+				if mps > 0 && rng.Intn(2) == 0 {
+					n = int(mps) - 2 + rng.Intn(20) // n + 5 >= mps + 3
+				}
 				subs := []packets.Subscription{}
 				for j := 0; j < n; j++ {
 					f := filters[rng.Intn(len(filters))]
@@ -79,6 +93,9 @@ func engRespond(seed int64, tier string, _ []string, out *sx.Out) {
 				pk = broker.SubscribePk(uint16(1+rng.Intn(4)), subs...)
 			case k < 9:
 				n := 1 + rng.Intn(3)
+				if mps > 0 && rng.Intn(2) == 0 {
+					n = int(mps) - 2 + rng.Intn(20)
+				}
 				fs := []string{}
 				for j := 0; j < n; j++ {
 					fs = append(fs, filters[rng.Intn(len(filters))])
@@ -137,8 +154,10 @@ func engRespond(seed int64, tier string, _ []string, out *sx.Out) {
 			if recvq < 0 {
 				neg = sx.L{sx.N(1), sx.N(uint64(-recvq))}
 			}
+			isSub := pk.FixedHeader.Type == packets.Subscribe || pk.FixedHeader.Type == packets.Unsubscribe
+			tooLarge := mps > 0 && isSub && len(pk.Filters)+5 > int(mps)
 			out.Case(sx.L{sx.N(uint64(ver)), sx.N(uint64(maxqos)), sx.Bool(obscure), sx.Bool(topicValid), neg,
-				sx.Bool(aclw), infl, fl, broker.PkSx(pk), outs, sx.Bool(closed)})
+				sx.Bool(aclw), infl, fl, broker.PkSx(pk), outs, sx.Bool(closed), sx.Bool(tooLarge)})
 		}
 		b.Shutdown()
 	}
